@@ -55,8 +55,8 @@ def main():
         json.dump(meta, open(meta_p, "w"), indent=1)
     finally:
         shutil.rmtree(scratch, ignore_errors=True)
-        # generated models were regenerated from the patched copy: restore them from /repo
-        sh("python3 -c \"import sys; sys.path.insert(0,'lib'); import vlib; vlib.coq_prepare()\"", cwd=HERE)
+        # generated models were regenerated from the patched copy: restore them from /repo (under the checks' lock)
+        sh("python3 -c \"import sys, fcntl; sys.path.insert(0,'lib'); f=open('.check.lock','w'); fcntl.flock(f, fcntl.LOCK_EX); import vlib; vlib.coq_prepare()\"", cwd=HERE)
     return 0
 
 
